@@ -125,6 +125,11 @@ CLASH_RACES = [
     {"hub": {"a": 1}, "A": {"a": 2, "d/b": 2, "with space/q'uote": 2}, "B": {"d": 1}},
     {"hub": {}, "A": {"a": 4, "d/b": 1, "d\\b": 2}, "B": {"d": 3}},
 ]
+# ... and windows in which the file that loses its CAS is EMPTY (its conflict-copy is a zero-byte file, and has to exist)
+EMPTY_RACES = [
+    {"hub": {}, "A": {"a": 3, "with space/q'uote": 2}, "B": {"a": 1}},
+    {"hub": {"a": 1, ".copiarc": 1}, "A": {"a": 3, ".copiarc": 3, "d.txt": 4}, "B": {"a": 2, ".copiarc": 2}},
+]
 
 
 def run_history(job):
